@@ -4,15 +4,39 @@
  *
  * Allocation regime <amode>:
  *   0  whatever the library does (coap_pdu_init allocates min(max_size,256), growth by doubling)
+ *   2  as 1, and (UDP only) the PDU is attached to a session and its header is encoded before the
+ *      first edit, so that coap_update_token takes its "fix up the header" branch; every dump then
+ *      shows the header bytes as they are in memory (h=)
  *   1  before EVERY edit the buffer is moved into a fresh allocation of exactly
  *      max_hdr_size + used_size bytes and alloc_size := used_size, so that every edit that needs
  *      even one more byte goes through coap_pdu_check_resize -> coap_pdu_resize -> realloc and
  *      every stale pointer / over-long memmove lands outside a live allocation.
  * The PDUs have no session (coap_update_token then leaves the header alone); the header is
- * written once at the end by coap_pdu_encode_header.  */
+ * written once at the end by coap_pdu_encode_header.
+ * After every step the accessor dump is followed by b=<token[0..used_size)>.
+ * X <mid'> <smax> <bytes> <filter>: coap_pdu_duplicate on a UDP client session whose next
+ * message id is <mid'> and whose coap_session_max_pdu_size is <smax>.  */
 #include "coap3/coap_libcoap_build.h"
 #include "common/util.h"
 #include "common/dump.h"
+
+#include <malloc.h>
+
+/* Every realloc of the library (coap_pdu_resize) moves the block and poisons the old one, so that a
+ * pointer the code kept across the call reads garbage at once (linked with --wrap=coap_realloc_type). */
+void *__real_coap_realloc_type(coap_memory_tag_t type, void *p, size_t size);
+void *__wrap_coap_realloc_type(coap_memory_tag_t type, void *p, size_t size) {
+  void *n;
+  size_t old;
+  if (!p) return coap_malloc_type(type, size);
+  n = coap_malloc_type(type, size);
+  if (!n) return NULL;
+  old = malloc_usable_size(p);
+  memcpy(n, p, old < size ? old : size);
+  memset(p, 0xA5, old);
+  coap_free_type(type, p);
+  return n;
+}
 
 static coap_proto_t proto_of(const char *s) {
   if (!strcmp(s, "udp")) return COAP_PROTO_UDP;
@@ -36,6 +60,7 @@ static void exact_fit(coap_pdu_t *pdu) {
   uint8_t *nw = (uint8_t *)coap_malloc_type(COAP_PDU_BUF, need + pdu->max_hdr_size);
   if (!nw) return;
   memcpy(nw, old, need + pdu->max_hdr_size);
+  memset(old, 0xA5, malloc_usable_size(old));
   coap_free_type(COAP_PDU_BUF, old);
   pdu->token = nw + pdu->max_hdr_size;
   pdu->data = doff ? pdu->token + doff : NULL;
@@ -45,6 +70,115 @@ static void exact_fit(coap_pdu_t *pdu) {
   pdu->alloc_size = need;
 }
 
+static coap_context_t *g_ctx;
+static coap_session_t *g_sess;
+
+static coap_proto_t g_proto;
+static int g_amode;
+
+static char *dump_str(const coap_pdu_t *pdu) {
+  char *buf = NULL;
+  size_t sz = 0;
+  FILE *m = open_memstream(&buf, &sz);
+  dump_pdu(m, pdu);
+  fclose(m);
+  return buf;
+}
+
+/* type and message id are not carried by the reliable framings */
+static const char *from_code(const char *d, coap_proto_t proto) {
+  const char *c;
+  if (proto == COAP_PROTO_UDP) return d;
+  c = strstr(d, " k=");
+  return c ? c : d;
+}
+
+/* serialise the PDU as it is now and parse the bytes into a fresh PDU; "rp==" when the fresh PDU
+ * shows the same message, otherwise what it shows (or REJECT).  Type and header size are put
+ * back (coap_pdu_encode_header forces CON on reliable transports). */
+static void step_reparse(FILE *o, coap_pdu_t *pdu) {
+  coap_pdu_type_t ty = pdu->type;
+  uint8_t hsz = pdu->hdr_size;
+  char *mine = dump_str(pdu);
+  size_t hs = coap_pdu_encode_header(pdu, g_proto);
+  if (!hs) {
+    fputs(" rp=NOHDR", o);
+  } else {
+    size_t total = hs + pdu->used_size;
+    uint8_t *copy = (uint8_t *)malloc(total);
+    coap_pdu_t *f = coap_pdu_init(0, 0, 0, total > 4 ? total : 4);
+    memcpy(copy, pdu->token - hs, total);
+    if (f && coap_pdu_parse(g_proto, copy, total, f)) {
+      char *theirs = dump_str(f);
+      int codes_equal = coap_pdu_get_code(f) == coap_pdu_get_code(pdu);
+      if (codes_equal && !strcmp(from_code(mine, g_proto), from_code(theirs, g_proto))) fputs(" rp==", o);
+      else fprintf(o, " rp=[%s]", theirs);
+      free(theirs);
+    } else {
+      fputs(" rp=[REJECT]", o);
+    }
+    if (f) coap_delete_pdu(f);
+    free(copy);
+  }
+  pdu->type = ty;
+  pdu->hdr_size = hsz;
+  free(mine);
+}
+
+static void dump_b(FILE *o, coap_pdu_t *pdu) {
+  fputc('[', o);
+  dump_pdu(o, pdu);
+  fputs("] b=", o);
+  show_bytes(o, pdu->token, pdu->used_size);
+  /* regime 2: the PDU belongs to a session and its header has been written; coap_update_token then
+   * has to keep the header in step with the token length - show the header as it is in memory */
+  /* what the model takes for granted about the allocation: the used bytes lie inside it, and it
+   * never exceeds max_size */
+  if (pdu->used_size > pdu->alloc_size || (pdu->max_size && pdu->alloc_size > pdu->max_size))
+    fprintf(o, " ALLOC-INVARIANT-BROKEN(used=%zu alloc=%zu max=%zu)", pdu->used_size,
+            pdu->alloc_size, pdu->max_size);
+  fputs(" h=", o);
+  if (g_amode == 2 && pdu->hdr_size) show_bytes(o, pdu->token - pdu->hdr_size, pdu->hdr_size);
+  else fputc('-', o);
+  step_reparse(o, pdu);
+}
+
+static void do_dup(coap_pdu_t *pdu, int i) {
+  coap_opt_filter_t f;
+  coap_opt_filter_t *fp = NULL;
+  coap_pdu_t *d;
+  size_t n;
+  uint8_t *b;
+  unsigned mid = (unsigned)atoi(vtok[i]);
+  size_t smax = (size_t)atol(vtok[i + 1]);
+  if (!g_sess) { fputs(" || dup=NOSESSION", stdout); return; }
+  coap_session_set_mtu(g_sess, (unsigned)(smax + 4));
+  if (coap_session_max_pdu_size(g_sess) != smax) { fputs(" || dup=BADSMAX", stdout); return; }
+  g_sess->tx_mid = (uint16_t)(mid - 1);
+  b = bytes_of_tok(vtok[i + 2], &n);
+  if (strcmp(vtok[i + 3], "N")) {
+    char *q = vtok[i + 3];
+    coap_option_filter_clear(&f);
+    fp = &f;
+    if (strcmp(q, "-")) {
+      while (*q) {
+        if (!coap_option_filter_set(&f, (coap_option_num_t)strtol(q, &q, 10))) {
+          fputs(" || dup=FILTERFULL", stdout);
+          free(b);
+          return;
+        }
+        if (*q == ',') q++;
+      }
+    }
+  }
+  d = coap_pdu_duplicate(pdu, g_sess, n, b, fp);
+  free(b);
+  if (!d) { fputs(" || dup=NULL", stdout); return; }
+  fputs(" || dup=", stdout);
+  dump_b(stdout, d);
+  coap_delete_pdu(d);
+}
+
 static void c04(void) {
   coap_proto_t proto;
   int amode, i;
@@ -52,7 +186,9 @@ static void c04(void) {
   coap_pdu_t *pdu = NULL;
   if (vntok < 6) { puts("ERROR c04 args"); return; }
   proto = proto_of(vtok[1]);
+  g_proto = proto;
   amode = atoi(vtok[2]);
+  g_amode = 0;      /* the starting dump shows no header */
   mx = (size_t)atol(vtok[3]);
   i = 5;
   if (vtok[4][0] == 'B') {
@@ -83,7 +219,7 @@ static void c04(void) {
       rets[nr++] = r ? '1' : '0';
     }
     rets[nr] = 0;
-    printf("start=%s [", nr ? rets : "-");
+    printf("start=%s ", nr ? rets : "-");
   } else {
     /* W: concatenate the byte tokens, parse */
     size_t total = 0, cap = 64;
@@ -124,17 +260,21 @@ static void c04(void) {
     }
     /* alloc_size = used_size after coap_pdu_parse, so alloc_size <= max_size holds */
     pdu->max_size = mx;
-    fputs("start=P [", stdout);
+    fputs("start=P ", stdout);
   }
-  dump_pdu(stdout, pdu);
-  fputs("]", stdout);
+  dump_b(stdout, pdu);
+  if (amode == 2 && proto == COAP_PROTO_UDP && g_sess) {
+    pdu->session = g_sess;
+    coap_pdu_encode_header(pdu, proto);
+    g_amode = 2;
+  }
   if (i < vntok && vtok[i][0] == 'E') i++;
-  while (i < vntok) {
+  while (i < vntok && vtok[i][0] != 'X') {
     size_t n = 0;
     uint8_t *b = NULL;
     int r = 0;
     char k = vtok[i][0];
-    if (amode == 1) exact_fit(pdu);
+    if (amode >= 1) exact_fit(pdu);
     if (k == 'I' && i + 2 < vntok) {
       b = bytes_of_tok(vtok[i + 2], &n);
       r = coap_insert_option(pdu, (coap_option_num_t)atoi(vtok[i + 1]), n, b) != 0;
@@ -150,14 +290,27 @@ static void c04(void) {
       b = bytes_of_tok(vtok[i + 1], &n);
       r = coap_update_token(pdu, n, b) != 0;
       i += 2;
+    } else if (k == 'A' && i + 2 < vntok) {
+      b = bytes_of_tok(vtok[i + 2], &n);
+      r = coap_add_option(pdu, (coap_option_num_t)atoi(vtok[i + 1]), n, b) != 0;
+      i += 3;
+    } else if (k == 'D' && i + 1 < vntok) {
+      b = bytes_of_tok(vtok[i + 1], &n);
+      r = coap_add_data(pdu, n, b) != 0;
+      i += 2;
     } else {
       fputs(" ERROR bad edit op", stdout);
       break;
     }
     if (b) free(b);
-    printf(" | %d [", r);
-    dump_pdu(stdout, pdu);
-    fputs("]", stdout);
+    printf(" | %d ", r);
+    dump_b(stdout, pdu);
+  }
+  /* the duplicate first: coap_pdu_encode_header below forces the type to CON on reliable
+   * transports */
+  if (i < vntok && vtok[i][0] == 'X') {
+    if (i + 4 < vntok) do_dup(pdu, i + 1);
+    else fputs(" ERROR bad dup args", stdout);
   }
   fputs(" || wire=", stdout);
   {
@@ -179,11 +332,42 @@ static void c04(void) {
   coap_delete_pdu(pdu);
 }
 
+/* resize <alloc_size> <max_size> <size>: a PDU with that alloc_size (<= max_size unless unlimited),
+ * then coap_pdu_check_resize(size) */
+static void resize_cmd(void) {
+  size_t alloc, mx, sz;
+  coap_pdu_t *pdu;
+  int r;
+  if (vntok < 4) { puts("ERROR resize args"); return; }
+  alloc = (size_t)atol(vtok[1]);
+  mx = (size_t)atol(vtok[2]);
+  sz = (size_t)atol(vtok[3]);
+  pdu = coap_pdu_init(0, 0, 0, mx);
+  if (!pdu) { puts("NOPDU"); return; }
+  if (!coap_pdu_resize(pdu, alloc) || pdu->alloc_size != alloc) {
+    puts("NOALLOC");
+    coap_delete_pdu(pdu);
+    return;
+  }
+  r = coap_pdu_check_resize(pdu, sz);
+  printf("%d %zu\n", r ? 1 : 0, pdu->alloc_size);
+  coap_delete_pdu(pdu);
+}
+
 int main(void) {
+  coap_address_t dst;
+  coap_startup();
   coap_set_log_level(COAP_LOG_EMERG);
+  g_ctx = coap_new_context(NULL);
+  coap_address_init(&dst);
+  dst.addr.sin.sin_family = AF_INET;
+  dst.addr.sin.sin_port = htons(5683);
+  dst.addr.sin.sin_addr.s_addr = htonl(0x7f000001);
+  if (g_ctx) g_sess = coap_new_client_session(g_ctx, NULL, &dst, COAP_PROTO_UDP);
   while (next_case(stdin)) {
     if (vntok == 0) { puts(""); continue; }
-    if (!strcmp(vtok[0], "c04")) c04();
+    if (!strcmp(vtok[0], "c04") || !strcmp(vtok[0], "c04x")) c04();
+    else if (!strcmp(vtok[0], "resize")) resize_cmd();
     else puts("ERROR unknown command");
     fflush(stdout);
   }
